@@ -6,16 +6,18 @@ Three oracles, all run against the real coba readers / sources / sinks:
              at any failure (ARFF dense/sparse exactly as Weka's ArffSaver / Utils.quote emit it, CSV exactly as Python's
              csv.writer QUOTE_MINIMAL emits it, LibSVM / Manik in their plain single-space form) and parsed by the real
              ArffReader / CsvReader / LibsvmReader / ManikReader (directly on lines, through DiskSource via
-             ArffSource/CsvSource/..., or through HttpSource._byte_it_).  Common dialect: the parsed table must equal the
+             ArffSource/CsvSource/..., through HttpSource._byte_it_, or through ArffSource/CsvSource/...("http://...") with
+             urlopen answering with a real http.client.HTTPResponse built from the bytes a server would send).  Common dialect: the parsed table must equal the
              written table.  Dialect fuzzer (quote style, escapes, keyword case, comments, blank lines, tabs, blanks
              after commas, line terminators left on the lines, indentation ...): equal to the table *or* an exception.
  * chunk   : HttpSource._byte_it_(encoding, charset, chunk, bytes) for ALL chunk sizes 1..len(bytes) (and the 10MB chunk
              coba's OpenML client uses) x {identity, gzip, deflate} (stored and compressed blocks) must give
              text.splitlines().  Long bodies (KBs .. 100s of KBs, redundancy from none to ~1000:1 inflation, so that one
              compressed chunk stands for many times its size of text) are read with chunk sizes on both sides of the
-             stream length (1, 3, 7, .. 64K, len-1, len, len+7, 10MB, two random fractions of len).
+             stream length (1, 3, 7, .. 64K, len-1, len, len+7, 10MB, two random fractions of len).  A fifth of the short texts
+             hold NEL / LS / PS characters (line ends for str.splitlines only): one and the same reading for every chunk size.
  * disk    : DiskSink(path).write(lines) -> DiskSource(path).read() must give the lines back (plain and .gz, batches,
-             also files of thousands of lines).
+             also files of thousands of lines; sinks opened in 'a' or 'w' mode, a 'w' sink gets one write call).
  Long tables: a table spec with "repeat": k is the table with its rows k times over (the long, few-distinct-rows files
  that compress very well); they are mostly delivered gzip/deflate compressed through _byte_it_ (1 byte .. 10MB chunks)
  or as .gz files and must parse to the same (long) table.
@@ -33,27 +35,34 @@ RULE  = ("table cases: seeded table (1-5 typed columns, 0-6 rows, names/levels/v
          "space , ' \" \\ % ? { } 2/3/4-byte unicode) x format {arff-dense, arff-sparse, csv, libsvm, manik} x dialect "
          "(common | 1-3 grammar-permitted respellings) x delivery {lines, DiskSource plain/.gz, _byte_it_}; distinct & "
          "non-trivial = distinct (format, dialect flags, delivery, column types, character classes per locus, "
-         "missing-present) with >= 1 row.  chunk cases: seeded text (terminators LF/CRLF/CR/mixed, final terminator or "
-         "not, 1-4 byte characters) x 5 byte streams (identity, gzip/deflate stored + compressed) x EVERY chunk size "
+         "missing-present, fractional number present) with >= 1 row; the numeric keywords numeric / real / integer are used whatever "
+         "the values are, numbers are spelled plain or in exponent notation; delivery http = the source classes on an http:// url "
+         "(identity / gzip / deflate body, content-length / chunked / until-close framing).  chunk cases: seeded text (terminators LF/CRLF/CR/mixed, final terminator or "
+         "not, 1-4 byte characters, 20% with NEL/LS/PS characters) x 5 byte streams (identity, gzip/deflate stored + compressed) x EVERY chunk size "
          "1..len(stream) and 10MB; distinct = (terminator set, character widths, final?, charset, stream, stream length).  "
          "long-body chunk cases: vocabulary of 1-40 lines (0-80 chars, 1-4 byte characters) laid out cyclic / in runs / "
          "seeded-random to 3KB-300KB, optional incompressible head/tail, x (identity, gzip, deflate at level 0/1/6/9) x ~15 "
          "chunk sizes below, at and above the stream length; distinct = (terminators, widths, final?, charset, stream, level, "
          "inflation class, layout, noise).  long tables (1% of table cases): rows x 40/200/1000, delivered mostly "
-         "compressed in chunks of 1 byte .. 10MB or as .gz.  disk cases: seeded line lists x {plain,.gz} x batch x number "
+         "compressed in chunks of 1 byte .. 10MB or as .gz.  disk cases: seeded line lists x {plain,.gz} x sink mode {default,a,w} x batch x number "
          "of write calls, 3% of them x 50/300/1500")
 PLAN  = {"quick":    {"shards": 16, "cases": 160000,  "timeout": 600,  "budget_s": 70},
          "thorough": {"shards": 16, "cases": 6000000, "timeout": 3000, "budget_s": 840}}
 REQUIRED = ["oracle.table.arff_dense.common", "oracle.table.arff_sparse.common", "oracle.table.csv.common",
             "oracle.table.libsvm.common", "oracle.table.manik.common", "oracle.table.variant.equal",
             "oracle.table.missing-flag", "oracle.table.arff_sparse.empty-braces-row", "oracle.table.delivery.disk", "oracle.table.delivery.chunk",
+            "oracle.table.delivery.http", "oracle.table.delivery.http.identity.equal", "oracle.table.delivery.http.gzip.equal", "oracle.table.delivery.http.deflate.equal",
             "oracle.chunk.identity", "oracle.chunk.gzip", "oracle.chunk.deflate",
             "oracle.chunk.boundary-inside-character", "oracle.chunk.boundary-between-cr-and-lf",
+            "oracle.chunk.unicode-line-separator-in-text", "oracle.chunk.boundary-after-unicode-line-separator",
             "oracle.chunk.long.identity", "oracle.chunk.long.gzip", "oracle.chunk.long.deflate", "oracle.chunk.long.inflation-over-100",
             "oracle.chunk.long.inflation-10-100", "oracle.chunk.long.inflation-under-10", "oracle.chunk.long.body-in-one-chunk",
             "oracle.chunk.long.several-chunks", "oracle.table.many-rows", "oracle.table.many-rows.compressed",
             "oracle.table.many-rows.compressed.body-in-one-chunk", "oracle.table.many-rows.compressed.several-chunks",
             "oracle.disk.plain", "oracle.disk.gz", "oracle.disk.many-lines.gz", "oracle.disk.many-lines.plain",
+            "oracle.disk.mode-w.several-batches", "oracle.disk.mode-a.several-batches",
+            "oracle.table.arff.integer-attribute.fractional-value", "oracle.table.arff.real-attribute.fractional-value",
+            "oracle.table.arff.exponent-notation.fractional-value",
             "reach.ArffLineReader._dense_simple", "reach.ArffLineReader._dense_advanced", "reach.ArffLineReader._sparse"]
 ASSUMPTIONS = [
     "common dialect = what Weka's ArffSaver (Utils.quote/backQuoteChars, no blanks after commas, lower-case keywords, "
@@ -67,9 +76,17 @@ ASSUMPTIONS = [
     "declared levels are compared after removing the added '0')",
     "rows without a label in LibSVM/Manik files are skipped by design and are not generated; an empty CSV without a "
     "header is not generated",
-    "chunk oracle: texts never contain the exotic str.splitlines separators (VT, FF, FS-RS, NEL, LS, PS); 'deflate' is "
+    "chunk oracle: texts never contain the ASCII control characters str.splitlines breaks on (VT, FF, FS, GS, RS); for texts "
+    "with NEL / LS / PS (non-ASCII characters str.splitlines also breaks on) the lines must be text.splitlines() or the "
+    "CR/LF/CRLF lines of the text -- the statement does not say which -- but the same reading for every chunk size and "
+    "content encoding of one text; 'deflate' is "
     "the raw deflate stream coba decodes (zlib-wrapped deflate is only checked as equal-or-raise)",
-    "disk oracle: written lines never contain CR or LF",
+    "disk oracle: written lines never contain CR or LF; a sink opened in 'w' mode receives one write call (what several calls "
+    "leave behind is not said by the statement), the file does not exist before",
+    "http delivery: the response is a real http.client.HTTPResponse over the bytes of an HTTP/1.1 answer (no socket); "
+    "Content-Encoding deflate is the raw deflate stream coba decodes",
+    "ARFF: numeric, real and integer are three keywords of one type (Weka ARFF specification), so a column declared under "
+    "any of them may hold any number; such files are respellings (equal or raise), not the common dialect",
     "long tables / long files repeat the generated rows / lines (duplicate rows are ordinary data in every format); "
     "long-body texts are rebuilt from the seeds in the spec with random.Random (same interpreter => same text)",
 ]
@@ -190,10 +207,10 @@ def gen_svm(rng, fmt):
         rows.append({"labels": labels, "feats": feats})
     return {"kind": "table", "fmt": fmt, "rows": rows}
 
-ARFF_FLAGS   = ["quote_double", "quote_all", "min_escape", "kw_upper", "kw_title", "num_real", "num_integer", "comments",
-                "blanks", "tab", "space_comma", "indent", "term_lf", "term_crlf"]
-SPARSE_FLAGS = ["quote_double", "quote_all", "min_escape", "kw_upper", "kw_title", "num_real", "num_integer", "comments",
-                "blanks", "space_comma", "pad_braces", "indent", "term_lf", "term_crlf"]
+ARFF_FLAGS   = ["quote_double", "quote_all", "min_escape", "kw_upper", "kw_title", "num_real", "num_integer", "num_integer", "num_exp",
+                "comments", "blanks", "tab", "space_comma", "indent", "term_lf", "term_crlf"]
+SPARSE_FLAGS = ["quote_double", "quote_all", "min_escape", "kw_upper", "kw_title", "num_real", "num_integer", "num_integer", "num_exp",
+                "comments", "blanks", "space_comma", "pad_braces", "indent", "term_lf", "term_crlf"]
 CSV_FLAGS    = ["quote_all", "quote_nonnumeric", "delim_tab", "delim_semi", "delim_pipe", "quotechar_single", "blanks",
                 "term_lf", "term_crlf", "lf_rows"]
 SVM_FLAGS    = ["trailing_blanks", "blanks", "tab", "double_space", "term_lf", "term_crlf"]
@@ -212,9 +229,11 @@ def gen_variant(rng, fmt):
 
 def gen_delivery(rng):
     r = rng.random()
-    if r < .70: return {"how": "lines"}
-    if r < .80: return {"how": "disk"}
-    if r < .87: return {"how": "diskgz"}
+    if r < .68: return {"how": "lines"}
+    if r < .78: return {"how": "disk"}
+    if r < .85: return {"how": "diskgz"}
+    if r < .90:      # the file sits behind an http:// url and is read with the same ArffSource / CsvSource / ... as a local file
+        return {"how": "http", "enc": rng.choice([None, None, "gzip", "deflate"]), "framing": rng.choice(["content-length", "chunked", "until-close"])}
     return {"how": "chunk", "enc": rng.choice([None, None, "gzip", "deflate"]), "chunk": rng.choice([1, 2, 3, 5, 7, 16, 64, 1000])}
 
 def gen_text(rng):
@@ -230,9 +249,25 @@ def gen_text(rng):
         if i < nlines - 1 or final:
             parts.append({"lf": "\n", "crlf": "\r\n", "cr": "\r"}.get(termmode) or rng.choice(["\n", "\r\n", "\r", "\r\n", "\n\r"]))
     text = "".join(parts)
+    if rng.random() < .2 and text:
+        # non-ASCII characters that str.splitlines takes for line ends (NEL, LS, PS) at a few places of the text: in front of /
+        # behind a terminator, inside a line, at the very end
+        t = list(text)
+        for _ in range(rng.choice([1, 1, 2, 3])):
+            t.insert(rng.randint(0, len(t)), rng.choice(UNI_SEPS))
+        text = "".join(t)
     charset = "utf-8" if rng.random() < .85 else "utf-16"
     while len(text.encode(charset)) > 300: text = text[:-1]
     return {"kind": "chunk", "text": text, "charset": charset}
+
+UNI_SEPS = "\x85\u2028\u2029"                    # non-ASCII characters str.splitlines breaks on
+ALL_SEPS = UNI_SEPS + "\x0b\x0c\x1c\x1d\x1e"      # ... and the ASCII control characters it breaks on (never generated)
+def _universal_lines(text):
+    """the lines of a text whose lines end in CR, LF or CRLF only (what open(newline=None) / DiskSource give)"""
+    import re
+    lines = re.split("\r\n|\r|\n", text)
+    if lines[-1] == "": lines.pop()
+    return lines
 
 B62 = "abcdefghijklmnopqrstuvwxyzABCDEFGHIJKLMNOPQRSTUVWXYZ0123456789"
 BIG_CHUNK = 10 * 1024 * 1024          # the chunk size coba's OpenML client passes to HttpSource
@@ -274,6 +309,12 @@ def gen_disk(rng):
     nwrites = rng.choice([1, 1, 2, 3])
     spec = {"kind": "disk", "lines": lines, "gz": rng.random() < .5, "batch": rng.choice([None, None, 1, 2, 3]),
             "cuts": sorted(rng.randint(0, n) for _ in range(nwrites - 1))}
+    if rng.random() < .3:
+        # the sink's open mode: 'a' (append) or 'w' (a new file).  What several write calls on one 'w' sink leave behind is not
+        # said by the statement (every call starts the file again), so a 'w' sink gets ONE write call -- whose lines, written
+        # in however many batches, are what the file must hold
+        spec["mode"] = rng.choice(["w", "w", "a"])
+        if spec["mode"] == "w": spec["cuts"] = []
     if n and rng.random() < .03:         # the same lines many times over: a long (and, as .gz, very compressible) file
         spec["repeat"] = rng.choice([50, 300, 1500])
         spec["batch"] = rng.choice([None, None, 1, 3, 100, 1000] if spec["repeat"] <= 300 else [None, None, 100, 1000])
@@ -335,7 +376,7 @@ def arff_lines(spec):
     hsep = "\t" if "tab" in V else " "
     L = [kw("@relation") + hsep + Q(spec["relation"]), ""]
     for c in spec["cols"]:
-        if c["type"] == "numeric": ty = kw("real" if "num_real" in V else "integer" if "num_integer" in V and _all_int(spec, c) else "numeric")
+        if c["type"] == "numeric": ty = kw("real" if "num_real" in V else "integer" if "num_integer" in V else "numeric")
         elif c["type"] == "string": ty = kw("string")
         elif c["type"] == "date": ty = kw("date") + " " + Q(c["format"])
         else: ty = "{" + (", " if "space_comma" in V else ",").join(Q(l) for l in c["levels"]) + "}"
@@ -346,7 +387,7 @@ def arff_lines(spec):
         cells = []
         for c, v in zip(spec["cols"], r):
             if v is None: s = "?"
-            elif c["type"] == "numeric": s = _num(v)
+            elif c["type"] == "numeric": s = _num_exp(v) if "num_exp" in V else _num(v)
             elif c["type"] == "nominal": s = Q(c["levels"][v])
             else: s = Q(v)
             cells.append(s)
@@ -370,9 +411,15 @@ def arff_lines(spec):
     if "indent" in V: out = ["  " + l + " \t" if l else l for l in out]
     return out
 
-def _all_int(spec, col):
-    i = spec["cols"].index(col)
-    return all(r[i] is None or float(r[i]) == int(r[i]) for r in spec["rows"])
+def _num_exp(v):
+    """the same number in exponent notation (every generated number has < 8 significant digits: float() gives it back)"""
+    s = f"{float(v):.7e}"
+    assert float(s) == float(v)
+    return s.upper() if float(v) > 1 else s
+
+def _has_fraction(spec):
+    """a numeric column holds a value that is not a whole number"""
+    return any(c["type"] == "numeric" and r[j] is not None and float(r[j]) != int(r[j]) for j, c in enumerate(spec["cols"]) for r in spec["rows"])
 
 def csv_text(spec):
     """returns (text, reader dialect)"""
@@ -461,6 +508,36 @@ def compress(kind, raw, level=6):
     o = zlib.compressobj(level, zlib.DEFLATED, wbits)
     return o.compress(raw) + o.flush()
 
+class _FakeSocket:
+    def __init__(self, data): self._data = data
+    def makefile(self, *a, **k): return io.BytesIO(self._data)
+
+def http_response(body, enc, framing):
+    """a real http.client.HTTPResponse that parses the bytes an HTTP/1.1 server would send for this body (no network)"""
+    from http.client import HTTPResponse
+    head = ["HTTP/1.1 200 OK", "Content-Type: text/plain; charset=utf-8"]
+    if enc: head.append("Content-Encoding: " + enc)
+    if framing == "content-length": head.append(f"Content-Length: {len(body)}")
+    elif framing == "chunked":
+        head.append("Transfer-Encoding: chunked")
+        cut = [body[i:i+37] for i in range(0, len(body), 37)]
+        body = b"".join(b"%x\r\n%s\r\n" % (len(c), c) for c in cut) + b"0\r\n\r\n"
+    else: head.append("Connection: close")
+    resp = HTTPResponse(_FakeSocket("\r\n".join(head).encode("ascii") + b"\r\n\r\n" + body))
+    resp.begin()
+    return resp
+
+class _served:
+    """while active, urllib's urlopen answers every request with the given body (coba's HttpSource calls request.urlopen)"""
+    def __init__(self, body, enc, framing): self.args = (body, enc, framing)
+    def __enter__(self):
+        from urllib import request
+        self._orig = request.urlopen
+        request.urlopen = lambda req, *a, **k: http_response(*self.args)
+    def __exit__(self, *exc):
+        from urllib import request
+        request.urlopen = self._orig
+
 def deliver_and_parse(spec):
     """runs the real coba code; returns the parsed rows in a comparable form"""
     from coba.pipes import ArffReader, CsvReader, LibsvmReader, ManikReader
@@ -484,6 +561,15 @@ def deliver_and_parse(spec):
         elif fmt == "libsvm":  rows = LibSvmSource(path).read()
         elif fmt == "manik":   rows = ManikSource(path).read()
         else:                  rows = ArffSource(path).read()
+    elif how == "http":
+        d = spec["delivery"]
+        url = "http://vf.invalid/data." + fmt
+        with _served(compress(d["enc"], text.encode("utf-8")), d["enc"], d["framing"]):
+            if   fmt == "csv":     rows = CsvSource(url, spec["header"], **rd).read()
+            elif fmt == "libsvm":  rows = LibSvmSource(url).read()
+            elif fmt == "manik":   rows = ManikSource(url).read()
+            else:                  rows = ArffSource(url).read()
+            rows = list(rows)
     else:
         d = spec["delivery"]
         src = HttpSource._byte_it_(d["enc"], "utf-8", d["chunk"], io.BytesIO(compress(d["enc"], text.encode("utf-8"))))
@@ -775,6 +861,7 @@ def table_signature(spec, locus, mode):
             for l in c.get("levels") or []: feats["level"] |= features(l)
             for r in spec["rows"]:
                 if c["type"] in ("string", "date") and r[j] is not None: feats["value"] |= features(r[j])
+        if locus.startswith("cell:numeric") and _has_fraction(spec): feats["number"] = {"fraction"}
     parts = [f"{k}:{'+'.join(sorted(v))}" for k, v in feats.items() if v]
     extra = []
     if fmt not in ("libsvm", "manik"):
@@ -782,7 +869,7 @@ def table_signature(spec, locus, mode):
         if fmt == "csv" and not spec["header"]: extra.append("no-header")
     dial = "common" if not spec["variant"] else "variant=" + "+".join(spec["variant"])
     dv = spec["delivery"]
-    how = "" if dv["how"] == "lines" else "/delivery=" + dv["how"] + (f":{dv['enc'] or 'identity'}" if dv["how"] == "chunk" else "")
+    how = "" if dv["how"] == "lines" else "/delivery=" + dv["how"] + (f":{dv['enc'] or 'identity'}" if dv["how"] in ("chunk", "http") else "")
     if how:     # the failure needs this delivery: the byte positions matter, not the kinds of characters in the tokens
         uni = sorted({f for v in feats.values() for f in v if f in ("u2", "u3", "u4")})
         parts, extra = (["unicode"] if uni else []), []
@@ -806,11 +893,13 @@ def _boundary_kinds(raw, pieces, charset):
         if charset == "utf-8":
             if raw[off] & 0xC0 == 0x80: kinds.add("inside-character")
             if raw[off-1:off] == b"\r" and raw[off:off+1] == b"\n": kinds.add("between-cr-and-lf")
+            if raw[:off].endswith((b"\xc2\x85", b"\xe2\x80\xa8", b"\xe2\x80\xa9")): kinds.add("after-unicode-line-separator")
         else:
             body = off - 2            # after the BOM, little endian units
             if off < 2 or body % 2 == 1: kinds.add("inside-character")
             elif body >= 2 and 0xD8 <= raw[off-1] <= 0xDB: kinds.add("inside-character")
             elif raw[off-2:off] == b"\r\x00" and raw[off:off+2] == b"\n\x00": kinds.add("between-cr-and-lf")
+            elif raw[off-2:off] in (b"\x85\x00", b"\x28\x20", b"\x29\x20"): kinds.add("after-unicode-line-separator")
     return kinds
 
 def check_chunk(spec, ctx=None):
@@ -818,6 +907,12 @@ def check_chunk(spec, ctx=None):
     text, charset = spec["text"], spec["charset"]
     raw = text.encode(charset)
     want = text.splitlines()
+    # a text that holds characters which only str.splitlines takes for line ends: "the lines of the whole text" are either
+    # text.splitlines() or its CR / LF / CRLF lines (the statement does not say which), but the SAME reading for every chunk
+    # size and every content encoding -- the lines must not depend on how the bytes are delivered
+    unisep = any(c in text for c in ALL_SEPS)
+    wants = [want] + ([_universal_lines(text)] if unisep else [])
+    chosen = None
     viol, seen = [], set()
     t0 = text.replace("\r\n", "\x00")
     tset = tuple(k for k, on in (("crlf", "\x00" in t0), ("lf", "\n" in t0), ("cr", "\r" in t0)) if on)
@@ -828,7 +923,7 @@ def check_chunk(spec, ctx=None):
         if only and (only[0], only[1]) != (name, level): continue
         data = compress(enc, raw, level)
         if ctx:
-            ctx.case(("chunk", tset, widths, final, charset, name, level, len(data)), nontrivial=len(want) > 0)
+            ctx.case(("chunk", tset, widths, final, charset, name, level, len(data), unisep), nontrivial=len(want) > 0)
         # the whole body at once (chunk=None) returns the decoded text
         try:
             whole = HttpSource._byte_it_(enc, charset, None, io.BytesIO(data))
@@ -841,7 +936,13 @@ def check_chunk(spec, ctx=None):
             mode = None
             try:
                 got = list(HttpSource._byte_it_(enc, charset, chunk, io.BytesIO(data)))
-                if got != want:
+                if unisep and got in wants:
+                    if chosen is None: chosen = (wants.index(got), name, chunk)
+                    elif wants.index(got) != chosen[0]:
+                        mode = "lines-depend-on-chunk-size"
+                        detail = f"read {got!r}, but stream={chosen[1]} chunk={chosen[2]} read {wants[chosen[0]]!r}"
+                elif got != want:
+                    if unisep and chosen: want = wants[chosen[0]]
                     if len(got) > len(want) and [g for g in got if g != ""] == [w for w in want if w != ""]: mode = "spurious-empty-line"
                     elif len(got) < len(want): mode = "lost-or-merged-line"
                     else: mode = "wrong-lines"
@@ -850,6 +951,7 @@ def check_chunk(spec, ctx=None):
                 mode, detail = f"raise:{type(e).__name__}", f"{type(e).__name__}: {e}"
             if ctx:
                 ctx.count("oracle.chunk." + name)
+                if unisep: ctx.count("oracle.chunk.unicode-line-separator-in-text")
             kinds = None
             if ctx and chunk <= len(data) and (name == "identity" or level == 0 or chunk % 5 == 0):
                 kinds = _boundary_kinds(raw, _pieces(enc, data, chunk), charset)
@@ -857,6 +959,11 @@ def check_chunk(spec, ctx=None):
             if mode:
                 if kinds is None: kinds = _boundary_kinds(raw, _pieces(enc, data, chunk), charset)
                 sig = f"chunk/enc={name}/charset={charset}/boundary={'+'.join(sorted(kinds)) or 'ordinary'}/{mode}"
+                if unisep:
+                    # are the separator characters needed?  (the same bytes-per-character, an ordinary character instead)
+                    plain = "".join({"\x85": "\u00e9", "\u2028": "\u20ac", "\u2029": "\u20ac"}.get(c, "x" if c in ALL_SEPS else c) for c in text)
+                    if _chunk_read(enc, charset, chunk, compress(enc, plain.encode(charset), level), plain.splitlines())[0] is None:
+                        sig = f"chunk/text=unicode-line-separator-character/{mode}"
                 if sig not in seen:
                     seen.add(sig)
                     viol.append((sig, f"chunk={chunk} stream={name}(level {level}) {detail}", [name, level, chunk]))
@@ -1006,7 +1113,7 @@ def run_disk(spec):
     k = spec.get("repeat", 1)
     lines = spec["lines"] * k
     cuts = [0] + [c * k for c in spec["cuts"]] + [len(lines)]
-    sink = DiskSink(path, batch=spec["batch"])
+    sink = DiskSink(path, spec["mode"], batch=spec["batch"]) if spec.get("mode") else DiskSink(path, batch=spec["batch"])
     for a, b in zip(cuts, cuts[1:]):
         part = lines[a:b]
         if len(part) == 1 and (a + b) % 2 == 0: sink.write(part[0])       # a bare string is one line
@@ -1057,7 +1164,7 @@ def shrink_disk(spec, mode, budget=300):
     changed = True
     while changed and budget > 0:
         changed = False
-        for mut in ([lambda s: s.__setitem__("cuts", []), lambda s: s.__setitem__("batch", None)]):
+        for mut in ([lambda s: s.__setitem__("cuts", []), lambda s: s.__setitem__("batch", None), lambda s: s.pop("mode", None)]):
             s = copy.deepcopy(cur); mut(s)
             if s != cur and fails(s): cur = s; changed = True
         i = 0
@@ -1074,14 +1181,14 @@ def shrink_disk(spec, mode, budget=300):
                     if fails(s): cur = s; changed = progress = True; break
     return cur
 
-def disk_signature(spec, mode):
-    f = set()
-    for l in spec["lines"]:
+def disk_signature(spec, mode, minimised=True):
+    f = set() if minimised else {"not-minimised"}
+    for l in (spec["lines"] if minimised else []):
         f |= features(l)
         for c in l:
             if c in "\u2028\u2029\x0b\x0c\x1c\x1d\x1e\x85": f.add("unicode-line-separator-char")
             if c == "\ufeff": f.add("bom-char")
-    extra = ([f"batch={spec['batch']}"] if spec["batch"] else []) + (["several-writes"] if spec["cuts"] else []) + (["many-lines"] if spec.get("repeat", 1) > 1 else [])
+    extra = ([f"mode={spec['mode']}"] if spec.get("mode") else []) + (["batched"] if spec["batch"] else []) + (["several-writes"] if spec["cuts"] else []) + (["many-lines"] if spec.get("repeat", 1) > 1 else [])
     return f"disk/{'gz' if spec['gz'] else 'plain'}/{'+'.join(sorted(f)) or 'plain'}{''.join('/' + e for e in extra)}/{mode}"
 
 # ================================================================================================= reach counters
@@ -1119,7 +1226,8 @@ def _case_key(spec):
         for r in spec["rows"]:
             if c["type"] in ("string", "date") and r[j] is not None: fv |= features(r[j])
     return ("table", fmt, tuple(spec["variant"]), dv["how"], dv.get("enc"), _long_key(spec), tuple(sorted(c["type"] for c in spec["cols"])),
-            tuple(sorted(fn)), tuple(sorted(fl)), tuple(sorted(fv)), any(v is None for r in spec["rows"] for v in r), spec.get("header"))
+            tuple(sorted(fn)), tuple(sorted(fl)), tuple(sorted(fv)), any(v is None for r in spec["rows"] for v in r), spec.get("header"),
+            _has_fraction(spec))
 
 def check_case(spec, ctx=None, minimise=True):
     """returns [(sig, what, witness-spec)]"""
@@ -1136,12 +1244,16 @@ def check_case(spec, ctx=None, minimise=True):
         return out
     if kind == "disk":
         if ctx:
-            ctx.case(("disk", spec["gz"], spec["batch"], len(spec["cuts"]), spec.get("repeat", 1) > 1, tuple(sorted(set().union(*[features(l) for l in spec["lines"]] or [set()])))),
+            ctx.case(("disk", spec["gz"], spec.get("mode"), spec["batch"], len(spec["cuts"]), spec.get("repeat", 1) > 1, tuple(sorted(set().union(*[features(l) for l in spec["lines"]] or [set()])))),
                      nontrivial=len(spec["lines"]) > 0)
             ctx.count("oracle.disk.gz" if spec["gz"] else "oracle.disk.plain")
             if spec.get("repeat", 1) > 1: ctx.count("oracle.disk.many-lines." + ("gz" if spec["gz"] else "plain"))
+            if spec.get("mode") and spec["batch"] and len(spec["lines"]) * spec.get("repeat", 1) >= spec["batch"]:
+                ctx.count(f"oracle.disk.mode-{spec['mode']}.several-batches")
         r = check_disk(spec)
         if r is None: return []
+        if minimise is False:       # (the shard's shrinking budget is used up: format, sink configuration and failure mode only)
+            return [(disk_signature(spec, r[0], minimised=False), r[1], spec)]
         small = shrink_disk(spec, r[0]) if minimise is True else spec
         r2 = check_disk(small) or r
         return [(disk_signature(small, r2[0]), r2[1], small)]
@@ -1156,17 +1268,30 @@ def check_case(spec, ctx=None, minimise=True):
         elif r == "raised": ctx.count("oracle.table.variant.raised")
         else: ctx.count("oracle.table.variant.equal" if r is None else "oracle.table.variant.differs")
         how = spec["delivery"]["how"]
-        if how != "lines": ctx.count("oracle.table.delivery." + ("disk" if how.startswith("disk") else "chunk"))
+        if how != "lines": ctx.count("oracle.table.delivery." + ("disk" if how.startswith("disk") else how))
+        if how == "http" and r is None: ctx.count("oracle.table.delivery.http." + (spec["delivery"]["enc"] or "identity") + ".equal")
         if spec.get("repeat", 1) > 1 and r != "raised":
             ctx.count("oracle.table.many-rows")
             if how == "diskgz" or spec["delivery"].get("enc"):
                 ctx.count("oracle.table.many-rows.compressed")
                 if how == "chunk": ctx.count("oracle.table.many-rows.compressed." + ("body-in-one-chunk" if spec["delivery"]["chunk"] >= BIG_CHUNK else "several-chunks"))
+        if fmt.startswith("arff") and r is None and _has_fraction(spec):
+            # numeric / real / integer are three names of one type: a column declared under any of them holds any number
+            for f, kwd in (("num_integer", "integer"), ("num_real", "real")):
+                if f in spec["variant"]: ctx.count(f"oracle.table.arff.{kwd}-attribute.fractional-value")
+            if "num_exp" in spec["variant"]: ctx.count("oracle.table.arff.exponent-notation.fractional-value")
         if fmt.startswith("arff") and r != "raised": ctx.count("oracle.table.missing-flag", len(spec["rows"]) * spec.get("repeat", 1))
         if fmt == "arff_sparse" and r is None:
             ctx.count("oracle.table.arff_sparse.empty-braces-row", sum(1 for row in spec["rows"] if all(
                 v is not None and v == 0 and c["type"] in ("numeric", "nominal") for c, v in zip(spec["cols"], row))))
     if r is None or r == "raised": return []
+    if spec["delivery"]["how"] == "http":
+        # do the very same bytes parse (or fail in another way) when they are handed to the reader in chunks?  then the table and
+        # the dialect do not matter: the url source in front of the reader is what fails (one signature per source class and failure mode)
+        r2 = check_table(dict(spec, delivery={"how": "chunk", "enc": spec["delivery"]["enc"], "chunk": 64}))
+        if r2 is None or r2 == "raised" or r2[:2] != r[:2]:
+            src = {"arff_dense": "ArffSource", "arff_sparse": "ArffSource", "csv": "CsvSource", "libsvm": "LibSvmSource", "manik": "ManikSource"}[fmt]
+            return [(f"table/{src}/delivery=http/same-bytes-parse-when-chunked/{r[1] if r[1].startswith('raise') else 'misread'}", r[2], spec)]
     if minimise == "as-is":
         return [(table_signature(spec, r[0], r[1]), r[2], spec)]
     if not minimise:
@@ -1190,7 +1315,7 @@ def run_shard(ctx):
         long = spec.get("repeat", 1) > 1
         v = check_case(spec, ctx, minimise=(sum(shrunk.values()) < 250 and not (long and long_shrunk >= 10)))
         for sig, what, wit in v:
-            shrunk[sig] += 1
+            if spec["kind"] != "chunk" and "/delivery=http/same-bytes-parse-when-chunked/" not in sig: shrunk[sig] += 1
             if long: long_shrunk += 1
             ctx.violation(sig, what, wit)
         ctx.count("cases." + spec["kind"])
